@@ -117,6 +117,7 @@ var nearKeySends atomic.Int64
 var ghostSends atomic.Int64
 var neverJoin atomic.Int64
 var fragFirst atomic.Int64
+var leavingBursts atomic.Int64
 var zeroKeyHistories atomic.Int64
 var onlyUnsupported atomic.Int64
 var c11ZeroBusy atomic.Bool
@@ -309,9 +310,45 @@ func c11History(srv *svc.Server, c *core.Collector, seed uint64, hid int, base i
 			t2.Close()
 		}
 		bwg.Wait()
+		// leaving burst: the writer is kept busy again, 8 more commands are fired at once (more than the 3-slot queue holds) and
+		// the owner goes away while most of them are still queued somewhere between the registry and its writer: every call
+		// returns — delivered, failed or "not exist" — none is left behind with a connection that no longer exists
+		for k := 0; k < 3; k++ {
+			t.Write(t.Frame(0x0002, uint16(40100+k), nil))
+		}
+		var lwg sync.WaitGroup
+		for g := 0; g < 8; g++ {
+			lwg.Add(1)
+			go func(g int) {
+				defer lwg.Done()
+				tag := c11Tag.Add(1)
+				body := binary.BigEndian.AppendUint32([]byte{1, 0, 0, 0xF0, 0x03, 4}, tag)
+				sr := &c11Send{key: key, tag: tag, call: svc.Stamp()}
+				res := sendCmd(srv.G, key, consts.P8103SetTerminalParams, body, 25*time.Millisecond, 25*time.Millisecond+slackFor(25*time.Millisecond))
+				if res.returned {
+					sr.ret = svc.Stamp()
+					sr.res = "routed"
+					if res.kind == "notexist" {
+						sr.res = "notexist"
+					}
+				} else {
+					sr.ret, sr.res = 1<<60, "stranded"
+				}
+				mu.Lock()
+				sends = append(sends, sr)
+				mu.Unlock()
+			}(g)
+		}
+		time.Sleep(time.Duration(500+r.Intn(3000)) * time.Microsecond)
 		owner.leaveCall = svc.Stamp()
-		t.Close()
+		if r.Bool() {
+			t.Reset()
+		} else {
+			t.Close()
+		}
+		lwg.Wait()
 		<-odone
+		leavingBursts.Add(1)
 	}
 	var cwg sync.WaitGroup
 	var dialFailed atomic.Bool
@@ -708,6 +745,7 @@ func c11Worker(c *core.Collector, x *Ctx) {
 			c.Counter("sends_to_ghost_keys_of_second_frames").Store(ghostSends.Load())
 			c.Counter("connections_that_only_sent_refused_messages").Store(neverJoin.Load())
 			c.Counter("connections_whose_first_message_was_a_fragment").Store(fragFirst.Load())
+			c.Counter("bursts_of_8_commands_with_the_owner_leaving").Store(leavingBursts.Load())
 			c.Counter("histories_with_the_all_zero_phone_among_the_keys").Store(zeroKeyHistories.Load())
 			c.Counter("connections_that_only_sent_an_unsupported_message").Store(onlyUnsupported.Load())
 			c.NonTrivial(core.HashString(fmt.Sprintf("%d/%d/%x", x.Batch, h, th)))
